@@ -87,6 +87,16 @@ Theorem C07_recorded_error_genuine : forall c s, wf_cfg c = true -> current c = 
 Proof. exact T_recorded_error. Qed.
 Print Assumptions C07_recorded_error_genuine.
 
+(* a failed Start (empty or truncated input, unknown first block, unsupported feature): no goroutine
+   exists, so Close has nothing to wait for ([all_done]), and the recorded start error is and stays
+   the scanner's error whatever is called afterwards (Close, cancel, further Scan/Header calls do
+   not start the pipeline again): with C07_err_precedence, Err keeps reporting it *)
+Theorem C07_start_error_wins : forall c s, wf_cfg c = true -> current c = true -> reach c s ->
+  started s = true -> running s = false ->
+  s_err s = c_hdr_err c /\ is_err (s_err s) = true /\ all_done s = true.
+Proof. exact T_start_error_wins. Qed.
+Print Assumptions C07_start_error_wins.
+
 (* ---- 4. all goroutines terminate ---- *)
 (* [mu] = 3*rm(reader pc) + sum over workers (2*|input queue| + pc weight) + sm(serializer pc).
    From a reachable state in which the internal context is cancelled, along ANY continuation — any
